@@ -685,6 +685,8 @@ class RequestHandler:
             ("domain", domain),
             ("path", path),
             ("samesite", samesite),
+            # Deprecated case-insensitive arguments are copied to the morsel below.
+            *((k, v) for k, v in kwargs.items() if isinstance(v, str)),
         ]:
             # Cookie attributes may not contain control characters or semicolons (except when
             # escaped in the value). A check for control characters was added to the http.cookies
